@@ -146,7 +146,13 @@ impl P32E2 {
         if ui_a > 0x8000_0000 {
             return 0;
         }
-        convert_p32bits_to_u32(ui_a)
+        // convert_p32bits_to_u32 saturates at i32::MAX (it serves to_i32); go through the 64-bit path
+        let i_z = convert_p32bits_to_u64(ui_a);
+        if i_z > u32::MAX as u64 {
+            u32::MAX
+        } else {
+            i_z as u32
+        }
     }
 
     #[inline]
